@@ -34,7 +34,7 @@ var allKinds = []string{kU, kSS, kCS, kBD}
 
 // caseSpec is one member of the grammar; it is also the replay object.
 type caseSpec struct {
-	Kind     string     `json:"kind"`                  // gen | files | mtypes | invalid-opt | regen
+	Kind     string     `json:"kind"`                  // gen | files | mtypes | names | invalid-opt | regen
 	Services [][]string `json:"services,omitempty"`    // per service of the main file: method kinds in declaration order
 	Naming   string     `json:"naming,omitempty"`      // camel | snake
 	Pkg      string     `json:"pkg"`                   // proto package: p | a.b.c | "" (none)
@@ -61,6 +61,10 @@ type caseSpec struct {
 	// kind "mtypes": per service of the main file, per method "<kind>:<request>><response>", the two
 	// messages being letters of msgAlphabet (mtypes.go): every method has its own pair of types
 	Methods [][]string `json:"methods,omitempty"`
+
+	// kind "names": the services of the main file with their own names and the names of their methods
+	// (names.go); Pkg is then any dotted sequence of identifiers
+	Named []namedSvc `json:"named,omitempty"`
 
 	// set for members of a fully crossed option group (not part of the replay object): the case
 	// without its options, and the option set as a mask over optAtoms
@@ -104,6 +108,13 @@ func (c caseSpec) shapeKey() string {
 			ms = append(ms, strings.Join(svc, ","))
 		}
 		k += "methods:" + strings.Join(ms, "+")
+	}
+	if c.Named != nil {
+		var ss []string
+		for _, ns := range c.Named {
+			ss = append(ss, ns.Name+"{"+strings.Join(ns.Methods, ",")+"}")
+		}
+		k += "named:" + strings.Join(ss, "+")
 	}
 	if c.FileKinds != nil {
 		k += "files:" + strings.Join(c.FileKinds, ",") + "&layout:" + c.Layout
@@ -303,6 +314,9 @@ func buildModel(c caseSpec) (*requestModel, error) {
 	}
 	if c.Kind == "mtypes" {
 		return buildMTypesModel(c)
+	}
+	if c.Kind == "names" {
+		return buildNamesModel(c)
 	}
 	rm := &requestModel{Param: c.Param, Order: c.Order}
 	if c.Order != "" && c.Order != "dependent-first" {
